@@ -237,6 +237,52 @@ fn pick_threads(rng: &mut Rng, k: usize) -> Vec<usize> {
     t
 }
 
+/// The command-line entry point (cli/src/sccs.rs): compress the graph, build the Elias-Fano
+/// offsets, run `webgraph-sccs` with or without `--renumber`, with `-j` threads, and read the
+/// ASCII outputs back.
+fn emit_cli(out: &mut impl Write, id: &str, kind: &str, g: &Graph, renumber: bool, threads: usize) {
+    use dsi_bitstream::prelude::BE;
+    use webgraph::prelude::*;
+    let dir = tempfile::Builder::new().prefix("wgverif-scc").tempdir().unwrap();
+    let base = dir.path().join("g");
+    let comp_out = dir.path().join("g.sccs");
+    let sizes_out = dir.path().join("g.sizes");
+    let vg = vec_graph(g);
+    let prep = catch(AssertUnwindSafe(|| -> anyhow::Result<()> {
+        BvComp::with_basename(&base).comp_graph::<BE>(&vg)?;
+        webgraph_cli::cli_main(vec!["webgraph".to_string(), "build".into(), "ef".into(), base.display().to_string()])?;
+        Ok(())
+    }));
+    let prep_st = match prep {
+        Ok(Ok(())) => "ok".to_string(),
+        Ok(Err(e)) => format!("err:{}", sanitize(&format!("{e:#}"))),
+        Err(p) => format!("panic:{}", sanitize(&p)),
+    };
+    let mut st = "-".to_string();
+    let mut comp = String::new();
+    let mut sizes = String::new();
+    if prep_st == "ok" {
+        let mut args = vec!["webgraph-sccs".to_string(), base.display().to_string(), comp_out.display().to_string(),
+            "-s".into(), sizes_out.display().to_string(), "-j".into(), threads.to_string()];
+        if renumber { args.push("-r".into()); }
+        let r = catch(AssertUnwindSafe(|| webgraph_cli::sccs::cli_main(args)));
+        st = match r {
+            Ok(Ok(())) => "ok".to_string(),
+            Ok(Err(e)) => format!("err:{}", sanitize(&format!("{e:#}"))),
+            Err(p) => format!("panic:{}", sanitize(&p)),
+        };
+        if st == "ok" {
+            let rd = |p: &std::path::Path| -> String {
+                std::fs::read_to_string(p).unwrap_or_default().split_whitespace().collect::<Vec<_>>().join(",")
+            };
+            comp = rd(&comp_out);
+            sizes = rd(&sizes_out);
+        }
+    }
+    writeln!(out, "scccli id={id} kind={kind} n={} arcs={} g={} renumber={} j={threads} prep={prep_st} st={st} comp={comp} sizes={sizes}",
+        g.len(), num_arcs(g), fmt_lists(g), renumber as u8).unwrap();
+}
+
 pub fn run(seed: u64, count: usize, maxn: usize, mode: &str, out: &mut impl Write) {
     let mut rng = Rng::new(seed ^ 0x5CC5);
     let pools = Pools::new();
@@ -277,6 +323,17 @@ pub fn run(seed: u64, count: usize, maxn: usize, mode: &str, out: &mut impl Writ
                 let (g, kind) = gen_random(&mut rng, n);
                 let th = pick_threads(&mut rng, 2);
                 emit(out, &format!("b{i}"), kind, true, &g, &th, &pools, &mut rng);
+            }
+        }
+        "cli" => {
+            // the smallest graphs first (0, 1, 2 nodes), then random ones
+            let mut fixed: Vec<Graph> = vec![vec![], vec![vec![]], vec![vec![0]], vec![vec![1], vec![0]], vec![vec![], vec![]]];
+            for i in 0..count {
+                let (g, kind) = if let Some(g) = fixed.pop() { (g, "fixed") } else {
+                    let n = rng.range(1, maxn.max(1));
+                    gen_random(&mut rng, n)
+                };
+                emit_cli(out, &format!("c{i}"), kind, &g, rng.chance(1, 2), rng.pick(&[1usize, 1, 2, 4]));
             }
         }
         other => {
